@@ -165,6 +165,20 @@ impl Scope for S {
             }
             check_affixes(params, w, cx);
         }
+        // a tree prepared by html2text::parse() rendered with this decorator equals the one-shot
+        // rendering (size estimates must be taken with the rendering decorator)
+        for h in self.docs.iter().step_by(3) {
+            for &w in self.widths.iter().step_by(2) {
+                let a = cx.render(h.as_bytes(), w, &cfg);
+                for (name, r) in other_routes_raw(h.as_bytes(), w, &cfg) {
+                    cx.state(1);
+                    if r != a {
+                        let class = format!("route {name} disagrees with string_from_read under a custom decorator");
+                        cx.violation(&class, || json!({"case": {"params": params, "html": h, "width": w}, "one_shot": format!("{a:?}"), "route": format!("{r:?}")}));
+                    }
+                }
+            }
+        }
         // compositionality with display-width prefixes (C07's relation under this decorator)
         for x in &self.contents {
             let mut memo = HashMap::new();
